@@ -151,6 +151,9 @@ func c19GenHist(r *Rng, t *c19Table) c19Case {
 			continue
 		}
 		reqs = append(reqs, st)
+		if r.Chance(8) {
+			st.FailAt = r.Pick([]string{"0", "1", "mid", "last-1"}) // this request's write fails part-way
+		}
 		cs.Steps = append(cs.Steps, st)
 	}
 	cs.Steps = append(cs.Steps, c19Step{Op: "menu", Page: map[string]string{}})
